@@ -142,8 +142,11 @@ Definition compute_by_open (f : fields) : list (str * (str * tokkind)) :=
   map (fun pr : str * str => (fst pr, (snd pr, TkMathInline))) (f_inline_delims f)
   ++ map (fun pr : str * str => (fst pr, (snd pr, TkMathDisplay))) (f_display_delims f).
 
+(** built from the DICT (a later item with the same opening delimiter has
+    replaced the earlier one) *)
 Definition compute_math_close (by_open : list (str * (str * tokkind))) : list str :=
-  dedup (map (fun it : str * (str * tokkind) => fst (snd it)) by_open).
+  dedup (flat_map (fun k => match dict_get by_open k with Some v => [fst v] | None => [] end)
+                  (dedup (map fst by_open))).
 
 Definition compute_expect (f : fields) (by_open : list (str * (str * tokkind)))
   : option (str * tokkind) :=
